@@ -138,7 +138,8 @@ class C04(Check):
         ]
 
     def replay(self, name, model, rec):
-        return None
+        from checks import replay_server
+        return replay_server.replay_c04(name, model, rec)
 
 
 CHECK = C04()
